@@ -7,7 +7,8 @@ CONSTANTS
  N = 3
  T = 1
  Strict = TRUE
- Mode = "tamper"
- DevC = {2}
-INVARIANTS Holds Interp
+ Mode = "byz"
+ HonP <- PolysConst
+ DevP <- PolysConst
+INVARIANTS NeverRecon
 CHECK_DEADLOCK FALSE
